@@ -173,6 +173,25 @@ class World:
             ev["exc"] = "%s: %s" % (type(ex).__name__, str(ex)[:100])
         return ev
 
+    def cm_event(self, tri, zone, ell, prj, tag):
+        """forward + inverse on the central meridian at the Pythagorean latitude of `tri`"""
+        P = prj[1]
+        if P is self.gc.isg:
+            cm = (zone // 10 - 1) * P.zonewidth * 3 + P.initialcm + (zone % 10 - 2) * P.zonewidth
+        else:
+            cm = zone * P.zonewidth + P.initialcm - P.zonewidth
+        lat = math.degrees(math.atan2(tri[0], tri[1]))
+        ev = {"k": "CM", "exc": "", "tag": tag}
+        try:
+            o = self.observe(lat, float(cm), zone, ell, prj)
+            o["tri"] = list(tri)
+            o["n0"] = fix.enc(1.0 / (2.0 * float(ell[1].inversef) - 1.0))
+            ev["o"] = o
+        except Exception as ex:
+            ev["exc"] = "%s: %s" % (type(ex).__name__, str(ex)[:100])
+            ev["o"] = {"latf": lat, "lonf": float(cm), "zonearg": zone, "ell": {"name": ell[0]}, "prj": {"name": prj[0]}}
+        return ev
+
     def zone_event(self, lon100, lat, prj, tag):
         (pn, P) = prj
         ev = {"k": "ZONE", "exc": "", "tag": tag, "o": {"lon100": lon100, "zw": int(P.zonewidth), "cm1": int(P.initialcm), "zone": 0}}
@@ -243,7 +262,7 @@ def validate(traces, ctx, label):
 
 def describe_event(ev):
     k = ev["k"]
-    if k in ("P",):
+    if k in ("P", "CM"):
         o = ev["o"]
         return {"lat": o.get("latf"), "lon": o.get("lonf"), "zonearg": o.get("zonearg"), "ell": o["ell"]["name"], "prj": o["prj"]["name"],
                 "fwd": o.get("fwd", {}).get("hex", ""), "inv_exc": o.get("inv", {}).get("exc", "")}
